@@ -173,7 +173,7 @@ var clauseKeywords = map[string]bool{
 	"sweep": true, "cover": true, "replay_hint": true, "never_writes": true, "frame_only": true, "reveal": true, "iface_calls_only": true, "direct_calls_only": true,
 	"requires_held": true, "same_critical_section": true, "writers": true, "never_calls": true, "append_only": true, "no_early_exit": true, "spawn_never_writes": true, "unshared_receiver": true, "sync": true, "owner_lock": true, "complete": true,
 	"rep_invariant": true, "nested_closedness": true, "dominated": true, "writes_unconditionally": true, "reads_only": true, "deterministic": true,
-	"lean_invariants": true, "lock_havoc": true, "field_called_only_here": true, "exact_format_int": true,
+	"lean_invariants": true, "lock_havoc": true, "every_iteration_calls": true, "field_called_only_here": true, "exact_format_int": true,
 }
 
 // ParseContractFile reads one file and adds its declarations to cs. pkgKey is
